@@ -390,6 +390,12 @@ def make_inline_cell_conflict(base_cells, local_diff, remote_diff):
     cells.extend(rcells)
     cells.append(cell_marker("%s %s" % (m2, remote_title)))
 
+    # Cell ids are only valid from nbformat 4.5, so only let the
+    # markers carry ids if the cells they surround do
+    if not any('id' in cell for cell in lcells + rcells):
+        for cell in cells:
+            cell.pop('id', None)
+
     # Return marked up cells
     return cells
 
